@@ -89,7 +89,47 @@ func genC06(g *Gen, tier string, w *bufio.Writer) {
 			return child
 		}
 		var s errShape
-		switch g.Intn(14) {
+		shapeNo := g.Intn(22)
+		if shapeNo >= 14 {
+			// a failing expression ABOVE a node: the error is handed DOWN to the node's produce call and must come
+			// back up through it. `boom` fails on every row it sees, so the query fails iff the inner query has a row.
+			e2 := qfile{"e.csv", eTable(g, rows, -1)}
+			boom := "(panic(c0) = 1)"
+			var inner, plan string
+			files := []qfile{e2}
+			switch shapeNo {
+			case 14:
+				inner, plan = "SELECT DISTINCT c0 FROM e.csv t", "un distinct 0 un map 0 src csvSource 0"
+			case 15:
+				inner, plan = "SELECT c0 FROM e.csv t ORDER BY c0 LIMIT 100", "un orderBy 0 un map 0 src csvSource 0"
+			case 16:
+				inner, plan = "SELECT c1, COUNT(c0) AS c0 FROM e.csv t GROUP BY c1", "un map 0 un simpleGroupBy 0 src csvSource 0"
+			case 17:
+				inner, plan = "SELECT c1, COUNT(c0) AS c0 FROM e.csv t GROUP BY c1 TRIGGER COUNTING 1", "un map 0 un customGroupBy 0 src csvSource 0"
+			case 18:
+				inner, plan = "SELECT t.c0 AS c0 FROM e.csv t JOIN r.csv r ON t.c0 = r.k", "un map 0 bin streamJoin 0 src csvSource 0 src csvSource 0"
+				files = append(files, r)
+			case 19:
+				inner, plan = "SELECT r.k AS c0 FROM r.csv r LEFT JOIN e.csv t ON t.c0 = r.k", "un map 0 bin outerJoin 0 src csvSource 0 src csvSource 0"
+				files = append(files, r)
+			case 20:
+				inner, plan = "SELECT t.c0 AS c0 FROM e.csv t LOOKUP JOIN r.csv r ON t.c0 = r.k", "un map 0 bin lookupJoin 0 src csvSource 0 src csvSource 0"
+				files = append(files, r)
+			default:
+				inner, plan = "SELECT c0 FROM e.csv t LIMIT 100", "un limit 0 un map 0 src csvSource 0"
+			}
+			// every generated inner query returns at least one row (rows >= 1; r.csv covers keys 0..3; outer join keeps r's rows)
+			where := g.Bool()
+			var s errShape
+			if where {
+				s = errShape{"SELECT c0 FROM (" + inner + ") q WHERE " + boom, "un map 0 un filter 1 " + plan, files}
+			} else {
+				s = errShape{"SELECT " + boom + " AS b FROM (" + inner + ") q", "un map 1 " + plan, files}
+			}
+			fmt.Fprintln(w, errqLine(mode, s))
+			continue
+		}
+		switch shapeNo {
 		case 0: // WHERE
 			s = errShape{"SELECT c0 FROM e.csv t WHERE " + pred, "un map 0 un filter " + b01(fails) + " src csvSource 0", []qfile{e}}
 		case 1: // projection
